@@ -409,6 +409,23 @@ def run_bookkeeping(col):
     orig = cvals(P_)
     okk = len(pn) == 5 and len({tuple(p) for p in pn}) == 5 and all(pn[cn[c, a]] == orig[cells[c, a]] for c in range(2) for a in range(3))
     col.add("C16.O7", "merge_duplicate_points", "coincident points are merged, every cell corner keeps its coordinates, no duplicate remains", okk, "points %s cells %s" % (pn, cn.tolist()))
+    # ... with a rounding tolerance: points that agree after rounding to `decimals` digits are merged (exact rational coordinates, away from
+    # the rounding boundaries), for every value of decimals incl. 0 (whole units); sweep() and Mesh.merge_duplicate_points forward to it
+    for d in (0, 1, 4, 12):
+        eps = F(1, 10 ** (d + 3))
+        Pd = npmodel.array([[0, 0], [1, 0], [1, 1], [1 + eps, -eps], [2 - eps, eps], [2, 1]], dtype=npmodel.DType("float"))
+
+        def chk(d=d, Pd=Pd):
+            pn, cn, tn = it.call(it.get("felupe.mesh._tools:merge_duplicate_points"), [Pd, cells, "triangle"], dict(decimals=d))
+            pn = cvals(npmodel.to_obj(pn))
+            cn = npmodel.to_int_array(np.asarray(cn))
+            orig = cvals(Pd)
+            tol = F(1, 2 * 10 ** d)
+            near = all(abs(pn[cn[c, a]][i] - orig[cells[c, a]][i]) <= tol for c in range(2) for a in range(3) for i in range(2))
+            apart = all(max(abs(p[i] - q[i]) for i in range(2)) > tol for k, p in enumerate(pn) for q in pn[k + 1:])
+            return len(pn) == 5 and near and apart and sorted(set(cn.reshape(-1).tolist())) == list(range(5)), "mesh/_tools.py merge_duplicate_points: %d points remain (5 expected), cells %s" % (len(pn), cn.tolist())
+        col.check("C16.O7", "merge_duplicate_points decimals=%d" % d,
+                  "points that agree after rounding to the given number of decimals are merged; every corner stays within the rounding tolerance; no two remaining points are closer than it; all remaining points are used", chk)
     # dual / disconnect
     dual = it.get("felupe.mesh._dual:dual")
     pn, cn, tn = it.call(dual, [B.points, B.cells, "triangle"], dict(points_per_cell=1))
